@@ -428,6 +428,20 @@ pub fn verify_abs<S: ShortGroupSignatureScheme>(p: &Presentation<S>, schema: &Pr
     json!({"stmts":stmts,"proofs":proofs,"disclosed":disclosed})
 }
 
+/// structural abstract of (credentials, schema) for the creation skeleton
+pub fn create_abs<S: ShortGroupSignatureScheme>(creds: &IndexMap<String, PresentationCredential<S>>, schema: &PresentationSchema<S>) -> Value {
+    let cr: Vec<Value> = creds.iter().map(|(k, c)| match c {
+        PresentationCredential::Signature(c) => json!({"key":k,"k":"sig","is_number":c.claims.iter().map(|x| matches!(x, ClaimData::Number(_))).collect::<Vec<_>>()}),
+        PresentationCredential::Membership(_) => json!({"key":k,"k":"mem"}),
+    }).collect();
+    let stmts: Vec<Value> = schema.statements.iter().map(|(k, st)| {
+        let mut a = stmt_abs(st);
+        a["key"] = json!(k);
+        a
+    }).collect();
+    json!({"creds":cr,"stmts":stmts})
+}
+
 // ------------------------------------------------------------------------------------------------
 
 fn run_verify<S: ShortGroupSignatureScheme>(v: &Value, w: &World<S>) -> Value {
@@ -549,7 +563,7 @@ fn run_create<S: ShortGroupSignatureScheme>(v: &Value, w: &World<S>) -> Value {
                     Ok(Err(_)) => ("err", "-"),
                     Err(_) => ("panic", "-"),
                 };
-                results.push(with_at(json!({"i":i,"desc":d,"decode":"ok","out":out,"verify":ver})));
+                results.push(with_at(json!({"i":i,"desc":d,"decode":"ok","out":out,"verify":ver,"abs":create_abs(&cm, &sm)})));
             }
             (Err(e), _) | (_, Err(e)) => {
                 let k = if e == "panic" { "panic" } else { "err" };
